@@ -32,7 +32,7 @@ func kvKey(kv *tree.KeyValue) (*tree.Edge, int) {
 
 // two presentations of the same tree description + an unrelated tree on the same taxa
 func threeTrees(r *rand.Rand, gp *GenParams, maxT int) ([]*tree.Tree, *STree) {
-	nt := 4 + r.Intn(maxi(1, maxT-3))
+	nt := pickTips(r, maxT)
 	names := tipNamesN("t", nt)
 	a := genSTreeOn(r, gp, names, r.Intn(3) == 0, 0, 0)
 	b := a.clone()
